@@ -5,11 +5,14 @@ import (
 	"fmt"
 	"sort"
 	"strings"
+	"sync/atomic"
 
 	"verifharness/lib/wire"
 )
 
 // count41 counts OPT (type 41) records per section: answer, authority, additional.
+var ownUpSize atomic.Uint32
+
 func count41(m *wire.Msg) (an, ns, ar int) {
 	for _, rr := range m.Answer {
 		if rr.Type == 41 {
@@ -117,10 +120,20 @@ func (cr *chainRun) checkUp(run *caseRun, ev *upEvent) {
 	if o.Version != 0 || o.Z != 0 {
 		viol("client-opt-fields-leaked-upstream", fmt.Sprintf("OPT sent upstream has version %d, Z bits %#x (client OPT: %+v); a fresh OPT has version 0 and no Z bits%s", o.Version, o.Z, c.Opt, addl))
 	}
+	// mosdns' own advertised size is whatever it puts into the fresh OPT for a client that
+	// sent no OPT at all (learned, not assumed: the statement does not fix the number)
+	if len(cOpts) == 0 {
+		ownUpSize.Store(uint32(o.UDPSize))
+	}
 	for _, co := range cOpts {
 		if o.UDPSize == co.Size {
-			// the generator never gives the client mosdns' own size (1200)
-			viol("client-opt-fields-leaked-upstream", fmt.Sprintf("OPT sent upstream advertises the client's UDP size %d instead of mosdns' own%s", o.UDPSize, addl))
+			own := ownUpSize.Load()
+			if own == 0 || uint32(o.UDPSize) == own {
+				// not learned yet, or the client happens to advertise the same size as mosdns
+				rep.Count("up_opt_size_equals_client_size_and_own_size(not judged)", 1)
+				break
+			}
+			viol("client-opt-fields-leaked-upstream", fmt.Sprintf("OPT sent upstream advertises the client's UDP size %d instead of mosdns' own (%d)%s", o.UDPSize, own, addl))
 			break
 		}
 	}
